@@ -378,6 +378,13 @@ fn draw_char(mut e: Exp, ch: char) -> Vec<Exp> {
         }
         return outs;
     }
+    if w > 2 {
+        // unicode-width reports a few characters wider than two cells; the statement only
+        // speaks of widths 0, 1 and 2
+        e.any_all = true;
+        e.lenient = true;
+        return vec![e];
+    }
     // printable, w = 1 or 2
     let s = &mut e.s;
     if s.cx >= cols {
